@@ -3,6 +3,7 @@ package exppipe
 import (
 	"encoding/json"
 	"fmt"
+	"regexp"
 
 	"github.com/bufbuild/protocompile/experimental/report"
 	compilerpb "github.com/bufbuild/protocompile/internal/gen/buf/compiler/v1alpha1"
@@ -40,6 +41,24 @@ type annSnap struct {
 	Edits     []string `json:"edits,omitempty"`
 }
 
+// Stack traces attached to internal-compiler-error diagnostics contain raw
+// addresses and argument words; those are not part of what "the same
+// diagnostic" means, so they are masked before any comparison.
+var reAddr = regexp.MustCompile(`0x[0-9a-fA-F]+\??|\+0x[0-9a-fA-F]+`)
+
+func maskAddrs(s string) string { return reAddr.ReplaceAllString(s, "0x?") }
+
+func maskAll(ss []string) []string {
+	if ss == nil {
+		return nil
+	}
+	out := make([]string, len(ss))
+	for i, s := range ss {
+		out[i] = maskAddrs(s)
+	}
+	return out
+}
+
 var plainRenderer = report.Renderer{ShowRemarks: true, ShowDebug: true}
 
 func snapDiag(d *report.Diagnostic, render bool) diagSnap {
@@ -50,7 +69,7 @@ func snapDiag(d *report.Diagnostic, render bool) diagSnap {
 		File:    d.File(),
 		Notes:   d.Notes(),
 		Help:    d.Help(),
-		Debug:   d.Debug(),
+		Debug:   maskAll(d.Debug()),
 	}
 	p := d.Primary()
 	s.PrimaryPath, s.Start, s.End = p.Path(), p.Start, p.End
@@ -76,6 +95,7 @@ func snapDiag(d *report.Diagnostic, render bool) diagSnap {
 		if pv != nil {
 			s.Rendered = fmt.Sprintf("<renderer panicked: %v>", pv)
 		}
+		s.Rendered = maskAddrs(s.Rendered)
 	}
 	return s
 }
